@@ -23,9 +23,14 @@ def main():
     if a[0] == 'replay':
         spec = json.load(open(a[1]))
         mod = framework.load_check(spec['property']) if False else None
-        if spec.get('engine') == 'A':
-            from lib import engine_a
-            return engine_a.replay(spec)
+        if spec.get('engine') in ('A', 'N'):
+            from lib import search
+            spec['_path'] = a[1]
+            return search.replay(spec)
+        if spec.get('engine') == 'ground':
+            print(json.dumps(spec.get('bad'), ensure_ascii=False)[:2000])
+            print('ground finding recorded by the check; re-run the check to re-evaluate it')
+            return 1
         out = framework.replay_batch(spec['property'], [dict(harness=spec['harness'], params=spec['params'], draws=spec['draws'])])
         print(json.dumps(out[0], ensure_ascii=False))
         if out[0] is True:
